@@ -116,8 +116,26 @@ Theorem C09_exec_is_run : forall n ops,
   d_s (exec n ops) = xrun (rev (d_ls (exec n ops))) (init 0 n).
 Proof. exact exec_is_run. Qed.
 
-(* OPEN: C09_oracle_sound : forall n ops, check_C09 n ops (observe n ops) = true.  Not proved;
-   checked by evaluation on every scenario of every run (lib/c09.py, model_oracle_accepts). *)
+(* (8) the executable oracle.  Its SAFETY clauses -- a Timeout result is never earlier than
+   t_call + T; a forward is recorded exactly once, with the reply's value and at the completion
+   time, iff a forwarding call succeeded, and never otherwise -- accept every run of the model's
+   driver, for every number of actors and every scenario; and they are part of the oracle applied
+   to the implementation *)
+Theorem C09_oracle_sound_safety : forall n ops, check_C09_safety (observe n ops) = true.
+Proof. exact oracle_sound_safety. Qed.
+
+Theorem C09_oracle_includes_safety : forall n ops o,
+  check_C09 n ops o = true -> check_C09_safety o = true.
+Proof. exact oracle_includes_safety. Qed.
+
+(* OPEN: C09_oracle_sound : forall n ops, check_C09 n ops (observe n ops) = true.
+   GAP: (i) "Success v only with a value the scenario designated for that request" needs a trace
+   invariant of the driver (every `Reply c v` it issues comes from a published plan for c);
+   (ii) "answer no later than the first drain at/after the deadline" and "no pending caller with a
+   dead callee unless its port was handed to a task" are PROGRESS statements about the
+   fuel-bounded `settle`; (iii) the multi_call vector clause combines (i) with C09_multi_order.
+   All are checked by vm_compute on the model's own observation for every scenario of every run
+   (lib/c09.py, coverage.model_oracle_accepts). *)
 
 (* ---- statement pins ---- *)
 Check (C09_success_sound : forall ls t n c cl v tt,
@@ -217,3 +235,5 @@ Print Assumptions C09_xrun_core.
 Print Assumptions C09_success_sound_x.
 Print Assumptions C09_forward_once.
 Print Assumptions C09_exec_is_run.
+Print Assumptions C09_oracle_sound_safety.
+Print Assumptions C09_oracle_includes_safety.
